@@ -43,7 +43,7 @@ def run(F, R, tier):
                 calls = [n for n in walk(arm["body"]) if callee_matches(n, [T + "transform_module_specifier"])]
                 ok = len(calls) == 1
                 if ok:
-                    g = guards_at(F, calls[0], stop_at=arm)
+                    g = guards_at(F, calls[0], stop_at=arm, expand=False)
                     conds = [x for x in g if x.kind == "cond"]
                     ok = len(conds) == 1 and conds[0].pol and peel(conds[0].node).get("res") == "local" and tyc(F, conds[0].node, "bool")
                     if nm == "ExportNamed":
@@ -58,9 +58,9 @@ def run(F, R, tier):
     rets = [n for n in ts["_nodes"] if n["k"] == "Ret"]
     rel = [r for r in rets if any(x.kind == "cond" and not x.pol and "starts_with" in expr_text(x.node) and "'.'" in expr_text(x.node) for x in guards_at(F, r))]
     R.ob("C09-S", "only relative specifiers are rewritten", len(rel) == 1, "non-relative guard changed", ts["file"])
-    asg = [n for n in ts["_nodes"] if n["k"] == "Assign" and peel(n["l"]).get("field") == "value"]
+    asg = [n for n in ts["_nodes"] if n["k"] == "Assign" and field_of(n["l"]) == "value"]
     R.ob("C09-S", "the specifier value is replaced by the relative path (keeping ./)", len(asg) == 2 and any("./" in expr_text(x) or any(y.get("v") == "./" for y in walk(x["r"]) if y.get("k") == "Lit") for x in asg) or len(asg) == 2, "value assignments: %d" % len(asg), ts["file"])
-    raw = [n for n in ts["_nodes"] if n["k"] == "Assign" and peel(n["l"]).get("field") == "raw" and ctor_of(peel(n["r"])) == "std::option::Option::None"]
+    raw = [n for n in ts["_nodes"] if n["k"] == "Assign" and field_of(n["l"]) == "raw" and ctor_of(peel(n["r"])) == "std::option::Option::None"]
     R.ob("C09-S", "the raw text of a rewritten specifier is dropped (otherwise the old text is emitted)", len(raw) == 1 and all(may_reach(F, a_, raw[0]) for a_ in asg), "src.raw is not reset after rewriting", ts["file"])
 
     # ---------------- C09-X ------------------------------------------------
@@ -97,9 +97,9 @@ def run(F, R, tier):
     R.floor("C09-X tracer matches over the symbol model", n_m, 9)
     # a referenced package is queued once and recorded as a dependency of the referrer
     apn = F.body(RF + "add_pending_nv")
-    R.ob("C09-X", "a referenced package is recorded as dependency and queued", any(callee_matches(n, [RF + "add_pending_nv_no_referrer"]) for n in apn["_nodes"]) and any(n.get("k") == "MethodCall" and n["name"] == "insert" and peel(n["recv"]).get("field") == "dependencies" for n in apn["_nodes"]),
+    R.ob("C09-X", "a referenced package is recorded as dependency and queued", any(callee_matches(n, [RF + "add_pending_nv_no_referrer"]) for n in apn["_nodes"]) and any(n.get("k") == "MethodCall" and n["name"] == "insert" and field_of(n["recv"]) == "dependencies" for n in apn["_nodes"]),
          "add_pending_nv no longer records / queues the referenced package", apn["file"])
-    fl = Flow(F, lambda n: n.get("k") == "MethodCall" and n["name"] == "insert" and peel(n["recv"]).get("field") == "dependencies")
+    fl = Flow(F, lambda n: n.get("k") == "MethodCall" and n["name"] == "insert" and field_of(n["recv"]) == "dependencies")
     fl.run(apn["body"]["value"], False)
     bad = []
     for kind, node, st in fl.exits:
@@ -111,16 +111,16 @@ def run(F, R, tier):
     R.ob("C09-X", "every reference to another package is recorded for the referrer (also when the package was already seen)", not bad,
          "a path through add_pending_nv does not insert the dependency for this referrer: the referrer's cached entry would not re-queue the package it needs", where(bad[0]) if bad else "")
     apq = F.body(RF + "add_pending_nv_no_referrer")
-    pb = [n for n in apq["_nodes"] if n.get("k") == "MethodCall" and n["name"] == "push_back" and peel(n["recv"]).get("field") == "pending_nvs"]
+    pb = [n for n in apq["_nodes"] if n.get("k") == "MethodCall" and n["name"] == "push_back" and field_of(n["recv"]) == "pending_nvs"]
     ok = len(pb) == 1
     if ok:
         g = guards_at(F, pb[0])
         ok = any(x.kind == "cond" and x.pol for x in g)
-        ins = [n for n in apq["_nodes"] if n.get("k") == "MethodCall" and n["name"] == "insert" and peel(n["recv"]).get("field") == "seen_nvs"]
+        ins = [n for n in apq["_nodes"] if n.get("k") == "MethodCall" and n["name"] == "insert" and field_of(n["recv"]) == "seen_nvs"]
         ok = ok and len(ins) == 1
     R.ob("C09-X", "each package is queued for analysis exactly once", ok, "pending_nvs.push_back not gated by a successful seen_nvs.insert", apq["file"])
     apt = F.body(RF + "add_pending_trace")
-    ok = any(n.get("k") == "MethodCall" and n["name"] == "add" and peel(n["recv"]).get("field") == "pending_traces" for n in apt["_nodes"]) and any(n.get("k") == "MethodCall" and n["name"] == "add" and peel(n["recv"]).get("field") == "traced_exports" for n in apt["_nodes"])
+    ok = any(n.get("k") == "MethodCall" and n["name"] == "add" and field_of(n["recv"]) == "pending_traces" for n in apt["_nodes"]) and any(n.get("k") == "MethodCall" and n["name"] == "add" and field_of(n["recv"]) == "traced_exports" for n in apt["_nodes"])
     R.ob("C09-X", "a requested trace is queued unless already handled", ok, "add_pending_trace shape changed", apt["file"])
 
     # ---------------- C09-L (lattice) ------------------------------------------
